@@ -624,12 +624,18 @@ def register(pid, run, **kw):
     PROPS[pid] = dict(run=run, **kw)
 
 
-register("C01", run_C01, rule="generated worklist programs (1-8 ops, 1-3 labware); non-trivial = contains an accepted liquid-moving operation; distinct by canonical JSON")
+register("C01", run_C01, module="Robotools.Props.C01",
+         theorems=["Robotools.C01." + t for t in ("replay_volumes", "match_vol", "record_address", "roundHalfEven_close", "render_vol_close")]
+                  + ["Robotools.RP." + t for t in ("wellOf_pos", "interp_asp", "interp_disp", "asp_core", "disp_core", "compile_safe")],
+         rule="generated worklist programs (1-8 ops, 1-3 labware); non-trivial = contains an accepted liquid-moving operation; distinct by canonical JSON")
 register("C02", run_C02, module="Robotools.Props.C02",
          theorems=["Robotools.C02." + t for t in ("addStep_ok_iff", "addStep_vol", "addStep_err", "removeStep_ok_iff", "removeStep_vol",
                    "removeStep_err", "addStep_valid", "removeStep_valid", "micro_valid", "exec_decompose", "exec_append", "exec_valid",
                    "compile_nonneg", "step_limits", "world_limits", "mk_valid", "trough_mk_valid")], rule="add/remove histories and worklist programs with boundary-biased volumes; rejected operations are followed by further operations")
-register("C03", run_C03, rule="worklist programs whose last operation is built to fail at a chosen sub-step; records replayed after every operation")
+register("C03", run_C03, module="Robotools.Props.C03",
+         theorems=["Robotools.C03." + t for t in ("step_safe", "step_cfg", "step_wf", "abort_safe", "run_safe")]
+                  + ["Robotools.RP." + t for t in ("safe_append", "safe_rm_emit", "safe_ad_emit", "safe_compileTransfer", "compile_safe")],
+         rule="worklist programs whose last operation is built to fail at a chosen sub-step; records replayed after every operation")
 register("C04", run_C04, module="Robotools.Props.C04",
          theorems=["Robotools.C04." + t for t in ("micro_shape", "executed_prefix", "executed_all_of_ok", "exec_ledger", "exec_frame",
                    "compileRemove_shape", "compileAdd_shape", "compileAdd_rejects_shape", "compileRemove_rejects_shape", "scalar_broadcast",
